@@ -18,6 +18,8 @@ Necessary structural conditions (the digit-level exactness of the string scanner
   K4  conversion routing: + and * use the parseFloat-style conversion only,
       - / % min max the Number-style conversion (which goes through the shared
       string→number conversion) only;
+  K6  the shared string→number conversion behind the Number-style family has the
+      ECMAScript structure and never exposes Rust's float grammar (as C07 K4);
   K5  a non-numeric operand is an error: every conversion result is turned into
       Err at the conversion site (ok_or_else / None-edge return Err); none is
       consumed by unwrap_or*, filter_map, flatten or a defaulting arm.
@@ -49,7 +51,7 @@ def run(ctx):
         ctx.need(len(conv) == 1, "result conversion f64 → Result<Value> not identified (%d)" % len(conv))
         tnv = conv[0]
         k1(ctx, facts, tnv, cfg)
-        s2n = strnum.find_str_to_number(facts)
+        s2n = strnum.check(ctx, facts, cfg, clause="K6")
         convs = [b for b in facts.fns() if b.kind == "fn" and items.get(b.key, {}).get("inputs") == ["&serde_json::Value"] and items[b.key].get("output") == "std::option::Option<f64>"]
         number_style = [b for b in convs if s2n.key in facts.reach([b.key]) and any(callee_of(t) and callee_of(t)["local"] for _, t in b.calls())]
         float_style = [b for b in convs if s2n.key not in facts.reach([b.key]) and any(callee_of(t) and callee_of(t)["local"] for _, t in b.calls())]
